@@ -33,6 +33,9 @@ def queries(tier):
                     [(l, o) for l in (0, 1, 2, 3, 4, 5, 7, 8, 9, 15, 16, 17, 23, 24, 31, 32, 33, 40) for o in (0, 1, 3)]):
         qs.append(Query("wsmask-len%d-off%d" % (ln, off), "c16/wsmask.c", tus=["core/list.c"], env=WENV, defs={"LEN": ln, "OFF": off},
                         unwind=ln + 8, timeout=300, params={"kernel": "ws_apply_mask", "len": ln, "alignment": off}))
+    for nf in (1, 2, 3):
+        qs.append(Query("ws-reassemble-%dframes" % nf, "c16/wsframe.c", tus=["core/list.c"], env=WENV + ["env_msg.c"], defs={"FINISH": 1, "NF": nf, "SERVER": 1},
+                        unwind=30, timeout=300, params={"kernel": "ws_read_finish_msg", "fragments": nf}))
     OPS = [0, 1, 2, 8, 9, 10, 3, 11, 0x41]
     for server in (0, 1):
         for lclass in (0, 1, 2):
